@@ -43,10 +43,20 @@ def alarm(signum, frame):
     raise Trip()
 
 
-def outcome_of(text, budget):
-    """returns (cls, key, detail)"""
+def outcome_of(text, budget, verbose=False):
+    """returns (cls, key, detail)
+    verbose: build with the console at its default verbosity (concise; output to the null device), which makes the builder
+    print the frame hierarchy of every framer after a successful resolve"""
     from vf.flo import dump
     from ioflo.base import excepting
+    if verbose:
+        from ioflo.aid.consoling import getConsole
+        con = getConsole()
+        try:
+            con.reinit(verbosity=2, path=os.devnull)
+            return outcome_of(text, budget)
+        finally:
+            con.reinit(verbosity=0, path="")
     # budget in CPU seconds of this process (ITIMER_PROF): a build that does not terminate burns CPU and trips it, a worker
     # that is starved or swapped out on a loaded machine does not (observed: 1 s + 8 s of wall-clock tripped on millisecond
     # builds while memory-hungry jobs ran beside the check); the wall-clock backstop is the worker's shard timeout
@@ -58,7 +68,8 @@ def outcome_of(text, budget):
         finally:
             signal.setitimer(signal.ITIMER_PROF, 0)
     except Trip as e:
-        fr = [f for f in traceback.extract_tb(e.__traceback__) if (os.sep + "ioflo" + os.sep) in f.filename]
+        fr = [f for f in traceback.extract_tb(e.__traceback__) if (os.sep + "ioflo" + os.sep) in f.filename
+              and not f.filename.endswith("consoling.py")]        # (the console only prints what the loop hands it)
         allfr = traceback.extract_tb(e.__traceback__)
         where = "%s:%s" % (os.path.basename(fr[-1].filename), fr[-1].name) if fr else (
             "outside-ioflo@%s:%s" % (os.path.basename(allfr[-1].filename), allfr[-1].name) if allfr else "?")
@@ -369,6 +380,20 @@ def numeric_slot_scripts():
     return out
 
 
+def unders_cycle_scripts():
+    """`under` clauses that name a frame above the frame they stand in (cycles through non primary children): accepted or
+    refused, with a mute and with the default console"""
+    out = []
+    base = ["house box", "  framer main be active first a", "    frame a", "      under x", "    frame x", "    frame b in a",
+            "      under c", "    frame c", "      under y", "    frame y", "    frame d in c", "      under a"]
+    out.append(("unders-cycle", "\n".join(base) + "\n"))
+    out.append(("unders-cycle", "\n".join(["house box", "  framer main be active first a", "    frame a", "      under x", "    frame x",
+                                          "    frame b in a", "      under a"]) + "\n"))
+    out.append(("unders-cycle", "\n".join(["house box", "  framer main be active first a", "    frame a", "      under x", "    frame x",
+                                          "    frame b in a", "    frame c in b", "      under a", "    frame e in b"]) + "\n"))
+    return out
+
+
 def name_clash_scripts():
     """names that meet: a named clone whose full name (<framer>_<tag>) is the name of another framer, of the moot itself or
     of a second clone; actors whose instance name (`as ...`) is the name of a builtin actor kind, in frames that conditions
@@ -438,6 +463,20 @@ def worker(ctx, job):
             ctx.fail(key, "building raised an internal error: %s" % detail, {"script": text, "error": detail})
         else:
             ctx.check(True, "ok")
+        if cls == "built" and kind in ("over", "under", "next", "clone", "unders-cycle"):
+            # once more with the console as a user has it by default (concise): the builder then prints every framer's hierarchy
+            cv, kv, dv = outcome_of(text, gbudget, verbose=True)
+            ctx.hit("refgraphs_also_built_with_the_default_console")
+            if cv == "timeout":
+                cv, kv, dv = outcome_of(text, gbudget * 8, verbose=True)
+                if cv == "timeout":
+                    confirmed[kv] = confirmed.get(kv, 0) + 1
+                    ctx.fail(kv + "/default-console", "building with the default console verbosity does not terminate (watchdog tripped "
+                             "twice) in %s; with a mute console the same script builds" % dv, {"script": text, "where": dv})
+                    continue
+            ctx.check(cv == "built", "outcome-depends-on-console-verbosity/%s" % cv,
+                      "a script that builds with a mute console gives %s with the default console (%s)" % (cv, dv),
+                      lambda: {"script": text, "detail": dv, "key": kv})
     budget = job["budget"]
     feats = gen.feat(p_let=0.3, p_pokes=0.4, p_aux=0.3, naux=(1, 2), p_condaux=0.3, nslaves=(0, 1), p_fiat=0.3, p_bids=0.3,
                      p_done_need=0.3, nframes=(2, 5), nframers=(1, 2))
@@ -484,7 +523,7 @@ def run(ctx):
     ctx.extra["refgraph_cases_3_frames_exhaustive"] = len(graphs)
     if not ctx.quick:
         graphs += refgraph_cases(4, nsample=40000, rng=ctx.rng)
-    graphs += marker_scripts() + clone_cycle_scripts() + numeric_slot_scripts() + name_clash_scripts()
+    graphs += marker_scripts() + clone_cycle_scripts() + numeric_slot_scripts() + name_clash_scripts() + unders_cycle_scripts()
     ctx.shard([{"plans": plans, "n": total // n, "budget": 5.0, "refgraphs": graphs[i::n]} for i in range(n)],
               timeout=ctx.pick(400, 3000))
     for k in ("over", "under", "next", "clone"):
